@@ -418,3 +418,48 @@ Example C06_example_push_move :
   end.
 Proof. exact ex06_push_move_not_restored. Qed.
 
+
+(* ------------------------------------------------------------------------------------------ *)
+(* The failure cleanup of cbor_copy as the C source of this run has it (gen/Gen_effects_copy.v,
+   Bridge_effects_copy.v, HPlansCopy_proofs.v): when the copy of an element fails the container under
+   construction is released; when the push is refused the element copy is released and then the container;
+   when the value copy of a pair fails the container and the KEY copy are released — and the heap model's
+   [copy] performs exactly these releases, in this order. *)
+From CB Require Import HPlansSer HPlansCopy HPlansCopy_proofs Bridge_effects_copy.
+From CBGen Require Import Gen_effects_copy.
+
+Theorem C06_code_copy_array_round_followed :
+  forall refuse cp al cc ctrl dst len_ ty v wd g8 g16 g32 g64 ok2
+    (rs : addr) (data : option addr) (e : addr) (rest : list addr) size k w wa wb w1 e1 e2,
+  k < size -> size < 2 ^ 64 -> cc < 2 ^ 64 -> k <= cc ->
+  touch_data false data w = Ret tt wa -> incref e wa = Ret e1 wb -> move e wb = Ret e2 w1 ->
+  let G ok1 c := Gcbor_copy_loop2 al (Z.of_N cc) ctrl dst (Z.of_N size) len_ ty v wd g16 g32 g64 g8 (Z.of_N k) true ok1 ok2 c in
+  (forall w2 c, cp e w1 = Ret None w2 ->
+     returns_null (G false c) = true /\
+     p_reqs (G false c) = [ReqCall "cbor_array_get" [AP src; AZ (Z.of_N k)]; copy_of (PNew 0); drop the_copy] /\
+     arr_loop refuse cp rs data (e :: rest) w = run_drops (round_val rs (Some e) None) (p_reqs (G false c)) (ret None) w2) /\
+  (forall ec w2 w3, cp e w1 = Ret (Some ec) w2 -> array_push refuse rs ec w2 = Ret false w3 ->
+     returns_null (G true 0%Z) = true /\
+     p_reqs (G true 0%Z) = [ReqCall "cbor_array_get" [AP src; AZ (Z.of_N k)]; copy_of (PNew 0);
+                            ReqCall "cbor_array_push" [AP the_copy; AP (PNew 1)]; drop (PNew 1); drop the_copy] /\
+     arr_loop refuse cp rs data (e :: rest) w = run_drops (round_val rs (Some e) (Some ec)) (p_reqs (G true 0%Z)) (ret None) w3) /\
+  (forall ec w2 w3 c, cp e w1 = Ret (Some ec) w2 -> array_push refuse rs ec w2 = Ret true w3 -> (c <> 0)%Z ->
+     goes_on 2 (G true c) = true /\
+     p_reqs (G true c) = [ReqCall "cbor_array_get" [AP src; AZ (Z.of_N k)]; copy_of (PNew 0);
+                          ReqCall "cbor_array_push" [AP the_copy; AP (PNew 1)]; drop (PNew 1)] /\
+     arr_loop refuse cp rs data (e :: rest) w =
+     run_drops (round_val rs (Some e) (Some ec)) (p_reqs (G true c)) (arr_loop refuse cp rs data rest) w3).
+Proof. exact code_copy_array_round_followed. Qed.
+Print Assumptions C06_code_copy_array_round_followed.
+
+Theorem C06_code_copy_map_value_failure_followed :
+  forall refuse cp al cc ctrl dst len_ ty v wd g8 g16 g32 g64 ok2 c
+    (rs : addr) (data : option addr) key vl (rest : list (addr * option addr)) size k w wa kc w2 w3,
+  k < size -> size < 2 ^ 64 -> cc < 2 ^ 64 -> k <= cc ->
+  touch_data false data w = Ret tt wa -> cp key wa = Ret (Some kc) w2 -> cp vl w2 = Ret None w3 ->
+  let p := Gcbor_copy_loop3 al (Z.of_N cc) ctrl dst (Z.of_N size) len_ ty v wd g16 g32 g64 g8 (Z.of_N k) true false ok2 c in
+  returns_null p = true /\
+  p_reqs p = [copy_of (PSlot slots0 (Z.of_N k) "key"); copy_of (PSlot slots0 (Z.of_N k) "value"); drop the_copy; drop (PNew 0)] /\
+  map_loop refuse cp rs data ((key, Some vl) :: rest) w = run_drops (round_val rs (Some kc) None) (p_reqs p) (ret None) w3.
+Proof. exact code_copy_map_value_failure_followed. Qed.
+Print Assumptions C06_code_copy_map_value_failure_followed.
